@@ -9,6 +9,7 @@ import CallbagModel.Closed.Prog2
 import CallbagModel.Closed.ProgTerm
 import CallbagModel.Inv.ConcatN
 import CallbagModel.Closed.Prog3
+import CallbagModel.Closed.LinearInf
 /-!
 # C06 — iterable programming: pull pipelines compute the corresponding list function
 
@@ -257,5 +258,29 @@ theorem C06_every_program_nary (p : Closed.Prog3) (hok : p.ok) :
     (∀ s, SReach (Closed.thenM p.toM Closed.forEachM).M s → ∃ n, EnvTurn (advance (Closed.thenM p.toM Closed.forEachM).M n s)) ∧
     (∃ s, SReach (Closed.thenM p.toM Closed.forEachM).M s ∧ s.stack = [] ∧ s.tr ≠ [] ∧ applied s.tr = listSem p.toPipe) :=
   ⟨Closed.prog3_correct p hok, Closed.prog3_safe p hok, Closed.prog3_progress p hok, Closed.prog3_nonvacuous p hok⟩
+
+/-! ## "… so `take` over an UNBOUNDED iterator stops" — for chains of any length
+
+`Closed.chainIM next it0 ss`: the linear network over an ARBITRARY iterator `next : ι → Option (Int × ι)` (a state machine, possibly
+infinite; `srcM xs` is the instance `listNextI`).  If the chain contains a `take n` and the stages ABOVE it never drop (map, scan —
+a `filter` rejecting everything over an unbounded source really diverges, and the property excludes it), every reachable configuration
+runs into an environment turn and the application returns if the closures do.  The potential of `from_iter` here is length-free: an
+iteration of its loop is paid by the Pull that set `got_pull`; the circle "a delivery pays the next Pull pays the next iteration pays the
+next delivery" is broken by `take`'s budget `(max − taken)·R` (`Inv/TakeTerm.lean`).  The stages below `take` are unrestricted.
+Safety (both layers) holds for every chain over every iterator. -/
+
+theorem C06_take_over_unbounded_stops {ι : Type} (next : ι → Option (Int × ι)) (it0 : ι) (pre post : List Closed.Stg) (n : Nat)
+    (hpre : ∀ s ∈ pre, s.keeps) :
+    (∀ s, SReach (Closed.thenM (Closed.chainIM next it0 (pre ++ .take n :: post)) Closed.forEachM).M s →
+      ∃ k, EnvTurn (advance (Closed.thenM (Closed.chainIM next it0 (pre ++ .take n :: post)) Closed.forEachM).M k s)) ∧
+    (∀ s, SReach (Closed.thenM (Closed.chainIM next it0 (pre ++ .take n :: post)) Closed.forEachM).M s →
+      ∃ t, SReach (Closed.thenM (Closed.chainIM next it0 (pre ++ .take n :: post)) Closed.forEachM).M t ∧ t.stack = [] ∧
+        (s.tr ≠ [] → t.tr ≠ []) ∧
+        ComposeTerm.Drain (Closed.thenM (Closed.chainIM next it0 (pre ++ .take n :: post)) Closed.forEachM).M s t) :=
+  ⟨Closed.linearInf_progress next it0 pre post n hpre, Closed.linearInf_returns next it0 pre post n hpre⟩
+
+theorem C06_unbounded_safe {ι : Type} (next : ι → Option (Int × ι)) (it0 : ι) (ss : List Closed.Stg) :
+    ∀ s, SReach (Closed.thenM (Closed.chainIM next it0 ss) Closed.forEachM).M s → Safe s ∧ SafeFor 4 s ∧ SafeFor 5 s :=
+  Closed.linearInf_safe next it0 ss
 
 end Cb.Thm
